@@ -83,7 +83,27 @@ def handle3 (op : String) (a obs : List String) : Option Verdict :=
     let o := obs
     if get o 0 == "invalid_san" then some (obs, check [("no_trap", !isTrap obs)])
     else
-      let wantSecs := if days == "default" then some (14 * 86400) else days.toNat?.map (· * 86400)
+      -- `at<offset>:<d days | o secs from not_before | a / p not_after as offset from now>`
+      let atSpec : Option (Int × Int) :=      -- (start, end) as offsets from now, in seconds
+        if days.startsWith "at" then
+          match ((days.drop 2).toString).splitOn ":" with
+          | [off, how] =>
+            match off.toInt?, ((how.drop 1).toString).toInt? with
+            | some o, some v =>
+              if how.startsWith "d" then some (o, o + v * 86400)
+              else if how.startsWith "o" then some (o, o + v)
+              else some (o, v)
+            | _, _ => none
+          | _ => none
+        else none
+      let wantSecs : Option Nat :=
+        match atSpec with
+        | some (st, en) => some (en - st).toNat
+        | none => if days == "default" then some (14 * 86400) else days.toNat?.map (· * 86400)
+      let startsNow := atSpec.isNone
+      let validNowWanted : Bool := match atSpec with
+        | some (st, en) => st ≤ 0 && 0 ≤ en
+        | none => true
       let sans := if get a 0 == "-" then [] else (get a 0).splitOn ","
       let prop := check [("no_trap", !isTrap obs),
         ("x509_v3", get o 1 == "v3"),
@@ -92,10 +112,10 @@ def handle3 (op : String) (a obs : List String) : Option Verdict :=
         ("sans_typed_as_dns_name_or_ip_address", s!"want={get o 3}" == get o 7),
         ("validity_as_requested", some (get o 4) == wantSecs.map (fun s => s!"secs={s}")),
         ("default_at_most_14_days", days != "default" || get o 4 == s!"secs={14 * 86400}"),
-        ("valid_now", get o 5 == "valid_now=true" || days == "0"),
+        ("valid_now", (if startsNow then get o 5 == "valid_now=true" else get o 5 == s!"valid_now={validNowWanted}") || days == "0"),
         ("accepted_by_own_pin_iff_short_lived",
           get o 6 == (match wantSecs with
-            | some s => if s ≤ 14 * 86400 then "pinned=true" else "pinned=false"
+            | some s => if s ≤ 14 * 86400 && validNowWanted then "pinned=true" else "pinned=false"
             | none => get o 6) || days == "0")]
       some (obs, prop)
   | "pem.rt" =>
